@@ -204,10 +204,13 @@ def known_findings(prop):
 
 # ---- evidence ---------------------------------------------------------------------------------------
 def write_evidence(ctx, level, coverage, assumptions, violations):
-    os.makedirs(os.path.join(VERIF, "evidence"), exist_ok=True)
+    # evidence/ only ever describes runs against /repo itself; runs against a scratch copy (VERIF_REPO, used by
+    # bin/refcheck and bin/seedsweep) write theirs under out/
+    evdir = os.path.join(VERIF, "evidence") if os.path.realpath(REPO) == "/repo" else os.path.join(VERIF, "out", "evidence-scratch")
+    os.makedirs(evdir, exist_ok=True)
     ev = dict(property_id=ctx.prop, tier=ctx.tier, seed=ctx.seed, level=level, coverage=coverage,
               assumptions=assumptions, wall_s=round(time.time() - ctx.t0, 1), violations=violations)
-    p = os.path.join(VERIF, "evidence", ctx.prop + ".json")
+    p = os.path.join(evdir, ctx.prop + ".json")
     tmp = p + ".tmp"
     json.dump(ev, open(tmp, "w"), indent=1)
     os.replace(tmp, p)
